@@ -935,6 +935,27 @@ fn substituted(ix: &Instruction, i: usize, k: Pubkey) -> Instruction {
 }
 
 /// Run an instruction that is expected to be rejected on a copy of the ledger. Ok(code) when rejected.
+/// `ix` with account `i` marked read-only, from state `l`; `hl` is the state after the unmodified instruction.
+fn run_readonly(l: &Ledger, hl: &Ledger, ix: &Instruction, i: usize) -> Result<(), String> {
+    let mut fx = ix.clone();
+    let key = fx.accounts[i].pubkey;
+    for m in fx.accounts.iter_mut() {
+        if m.pubkey == key {
+            m.is_writable = false;
+        }
+    }
+    let mut cl = l.clone();
+    let o = svm::process(&mut cl, &fx);
+    if o.ok() {
+        if cl != *hl {
+            return Err("the instruction SUCCEEDED but ended in a different state than with the account writable".into());
+        }
+    } else if cl != *l {
+        return Err(format!("the instruction failed ({}) but changed the ledger", o.short()));
+    }
+    Ok(())
+}
+
 fn run_faulty(l: &Ledger, ix: &Instruction) -> Result<String, String> {
     let mut c = l.clone();
     let o = svm::process(&mut c, ix);
@@ -1001,6 +1022,7 @@ pub fn run(ctx: &Ctx) -> Report {
     let mut rows: BTreeMap<&'static str, Row> = BTreeMap::new();
     let mut by_class: BTreeMap<&'static str, u64> = BTreeMap::new();
     let mut evaluations = 0u64;
+    let mut readonly_variants = 0u64;
     let mut nontrivial = 0u64;
     let mut free_executed = 0u64;
     let mut free_accepted = 0u64;
@@ -1066,6 +1088,25 @@ pub fn run(ctx: &Ctx) -> Report {
                     row.happy += 1;
                     true
                 };
+                // account flags: every writable, non-signing slot handed over READ-ONLY — the instruction either fails (changing
+                // nothing) or ends in exactly the state of the unmodified instruction; it never acts on the pool while leaving
+                // out a write it owes to that account (e.g. trading on an adaptive-fee pool without recording it in the oracle)
+                if twin_ok {
+                    for i in 0..c.ix.accounts.len() {
+                        if !c.ix.accounts[i].is_writable || c.ix.accounts[i].is_signer {
+                            continue;
+                        }
+                        evaluations += 1;
+                        readonly_variants += 1;
+                        if let Err(how) = run_readonly(l, &hl, &c.ix, i) {
+                            r.violation(
+                                format!("{}/{}/{}/readonly{}", v.name(), sname, c.name, i),
+                                format!("{} (variant {}, state {}): slot {i} `{}` = {} was handed over read-only and {how}", c.name, v.name(), sname, c.slots[i].0, c.ix.accounts[i].pubkey),
+                                json!({"variant": v.name(), "state": sname, "case": c.name, "readonly": i}),
+                            );
+                        }
+                    }
+                }
                 for m in multis(&c, u1, u2, l) {
                     for (k, key) in &m.repl {
                         assert_ne!(c.ix.accounts[*k].pubkey, *key, "{}: {}: group member equals the original", c.name, m.what);
@@ -1237,6 +1278,7 @@ pub fn run(ctx: &Ctx) -> Report {
     r.assume("signer slots (token / position / protocol-fee authority) are substituted too and must be rejected; they overlap with C04");
 
     r.guard("worlds_built", worlds_ok as u64);
+    r.guard("read_only_flag_variants", readonly_variants);
     r.guard("all_happy_paths_succeeded", if happy_failed.is_empty() { happy_ok } else { 0 });
     r.guard("free_substitutions_accepted", free_accepted);
     r.guard("two_hop_faults_rejected_with_the_dedicated_code", compound_expected_code);
@@ -1268,6 +1310,16 @@ pub fn replay(case: &Value) -> Result<(), String> {
         };
     }
     let cn = case["case"].as_str().ok_or("case")?;
+    if let Some(i) = case.get("readonly").and_then(|x| x.as_u64()) {
+        let c = cases(l, u1, v, true).into_iter().find(|c| c.name == cn).ok_or("unknown case")?;
+        let mut base = l.clone();
+        if c.ins == "update_fees_and_rewards" {
+            base.unix_ts += 60;
+        }
+        let mut hl = base.clone();
+        let _ = svm::process(&mut hl, &c.ix);
+        return run_readonly(&base, &hl, &c.ix, i as usize).map_err(|how| format!("{cn}: slot {i} handed over read-only: {how}"));
+    }
     if let Some(g) = case.get("group").and_then(|x| x.as_str()) {
         let c = cases(l, u1, v, true).into_iter().find(|c| c.name == cn).ok_or("unknown case")?;
         let m = multis(&c, u1, u2, l).into_iter().find(|m| m.what == g).ok_or("unknown group")?;
